@@ -18,6 +18,15 @@ def tensor_pre(ctx, binary):
     ctx.distinct_nontrivial += v["extra"].get("nontrivial_cases", 0)
 
 
+def fft_pre(ctx, binary):
+    g = ctx.cfg("fft", "FftGen.cfg", {"Depth": ctx.q("2", "3")})
+    cases, n = ctx.gen("fft", "FftGen", g, "cases.ndjson", stage="gen", workers=8, timeout=ctx.q(900, 5000), coverage=False)
+    v = ctx.replay(binary, "fft", cases)
+    ctx.distinct_nontrivial += v["extra"].get("nontrivial_cases", 0)
+    dev = ctx.build()
+    ctx.replay(dev, "fft", cases, stage="replay-debug-build")
+
+
 SPECS = {
     "mint": {
         "module": "MintTrace",
@@ -153,6 +162,25 @@ SPECS = {
             "x87 only (the crate is x86-only); precision control is the Linux default (64-bit significand)",
             "f80 denormals / values outside the normal f64 range for narrowing are not judged (they cannot arise from 2-4 operations on f64 operands)",
             "for min/max with a NaN operand the property is silent: either operand is accepted",
+        ],
+    },
+    "fft": {
+        "module": "FftTrace",
+        "pre": fft_pre,
+        "release": True,
+        "rule": ("S->I: TLC enumerates all call histories of <= 2 (thorough 3) calls (multiply, multiply_into on a non-zero destination, "
+                 "fft + pointwise product + fft_inv) over length pairs realising every transform size 2..32 in every grow/shrink order, and "
+                 "every length pair 1..17 x 1..17 as a call after a large one, with the integer convolutions the specification demands; "
+                 "replayed on ONE reused FFT<f64> and FFT<f32> object per history and on fresh objects (release and debug builds). "
+                 "I->S: 70 (260) calls on one reused object per float type with sizes up to 2^12 (2^16) in big->small->big, 2^k, 2^k+1 and "
+                 "lopsided sequences, positive / negative / mixed / alternating coefficients with max^2 * max(len) <= 1e12 (f64) resp. 1e3 "
+                 "(f32); every checked output coefficient (all for outputs <= 96; otherwise both ends, neighbourhoods of powers of two and random indices whose sums have <= 300 terms) recomputed "
+                 "exactly by FftTrace on 10-bit halves. Non-trivial = history of >= 2 calls / every recorded call."),
+        "assumptions": [
+            "the driver stays inside max^2 * max(len a, len b) <= 1e12, a subset of the property's max^2 * min(len) formula (the crate's table "
+            "is for equal lengths; rounding error scales with the product of the 2-norms): no alarm can come from outside the published envelope",
+            "long outputs are checked on a sample of indices (sound: a subset of the coefficients)",
+            "the spec contributes the exact oracle and the history structure, not a floating-point error analysis; f32 on the 100x reduced envelope",
         ],
     },
 }
